@@ -1,6 +1,7 @@
 package props
 
 import (
+	"math"
 	"bytes"
 	"context"
 	"errors"
@@ -101,6 +102,15 @@ func c01Cfgs() []Cfg {
 							}
 							if cfg.Valid() {
 								out = append(out, cfg)
+								if h == 2 && m == memhttp.ReqEager && (comp == CompSendGzip || comp == CompDefault) {
+									// the same with read limits at the top of the int range on both sides:
+									// a limit nothing can exceed must not change anything
+									for _, lim := range []int{math.MaxInt, math.MaxInt32, math.MaxInt - 1} {
+										cl := cfg
+										cl.ReadMax = lim
+										out = append(out, cl)
+									}
+								}
 								if h == 2 && m == memhttp.ReqEager && (comp == CompDefault || comp == CompNone) {
 									// the same over a transport that hands bodies over 7 bytes at a time
 									cfg.Chunk = 7
